@@ -139,8 +139,18 @@ def run(prop, R, seed):
     ctl_dir = os.path.join(MUTANTS, "controls")
     ctl = []
     if os.path.isdir(ctl_dir) and os.environ.get("TCVERIF_CONTROLS", "1") != "0":
+        # files this property's rules pointed at on the current tree (every obligation carries its location)
+        examined = set()
+        for o in R.obligations:
+            m = re.match(r"^(src/[\w/.-]+\.rs)", o.get("where") or "")
+            if m:
+                examined.add(m.group(1))
         for f in sorted(os.listdir(ctl_dir)):
             if not f.endswith(".patch"):
+                continue
+            touched = set(re.findall(r"^\+\+\+ b/(\S+)", open(os.path.join(ctl_dir, f)).read(), re.M))
+            if examined and not (touched & examined):
+                ctl.append({"control": f, "status": "not-applicable"})
                 continue
             status, detail, viol = check_patch(prop, os.path.join(ctl_dir, f))
             from tc.report import load_known
@@ -159,7 +169,8 @@ def run(prop, R, seed):
         "silent": len([c for c in ctl if c["status"] == "silent"]),
         "false_alarms": [c for c in ctl if c["status"] == "false-alarm"],
         "stale": [c["control"] for c in ctl if c["status"] == "stale"],
-        "note": "each control is a behaviour-preserving refactoring applied to a scratch copy; this property's rules must report nothing new on it",
+        "not_applicable": len([c for c in ctl if c["status"] == "not-applicable"]),
+        "note": "each control is a behaviour-preserving refactoring applied to a scratch copy; this property's rules must report nothing new on it. Controls that only touch source files at which none of this property's obligations is located are counted as not applicable here (tools/run_controls.py runs every control against every property)",
     }
     R.extra["sensitivity"] = {
         "variants": len(res),
